@@ -77,14 +77,14 @@ func (prop) Drive(d *core.Driver) error {
 		"the gc toolchain pinned by env.sh implements Go's panic/recover semantics and prints the chain of active panics (crash header) and their frames (traceback) correctly",
 		"Env.Stop/Env.Fatal are modelled in the gc reference by ending the process, which is their documented effect (no deferred call runs)",
 		"Path() of a program panic is accepted as \"main\" or \"main.go\" (a program has a single file)",
-		"\"X [recovered, repanicked]\" in a gc crash header stands for two adjacent panics with the identical value whether or not the first was recovered; the Recovered flag of the first is judged only when the value is unique to one panic site (explicit values and index/assertion/native faults), not for the shared run-time error values (nil dereference, division by zero, nil-map write)",
+		"\"X [recovered, repanicked]\" in a gc crash header stands for two adjacent panics with the identical value whether or not the first was recovered; the number of panics behind such a line is taken from the traceback, the Recovered flag of the first is judged only when its value is unique to one execution (explicit values carry a call counter; not the shared run-time error values nil dereference, division by zero, nil-map write), the flags of the others are not judged; a header with several such lines is compared only in its newest panic",
 		"`defer recover()` is not generated: what gc reports for it depends on frame matching in its runtime, not on the language specification",
 	}
 	goBin := os.Getenv("VGO")
 	if goBin == "" {
 		return fmt.Errorf("VGO is not set (run through ./check)")
 	}
-	nProg := d.N(300, 4000)
+	nProg := d.N(240, 4000)
 	r := d.Rand("nests")
 	opts := fp.NestOpts{NativeEscape: true, NoDeferFuncVar: d.InScope(scopeDeferFuncVar)}
 	skipDerefPos := d.InScope(scopeDerefPos)
@@ -403,6 +403,23 @@ func (prop) Work(c core.Case) core.Result {
 		for i, j := 0, len(ents)-1; i < j; i, j = i+1, j-1 {
 			ents[i], ents[j] = ents[j], ents[i]
 		}
+		if exp.Approx {
+			// several "[recovered, repanicked]" lines: only the newest panic is known
+			res.Counts["chains_approximate"]++
+			w := exp.Chain[len(exp.Chain)-1]
+			g := ents[len(ents)-1]
+			if g.Text != w.Text {
+				return fail("newest panic: message %q, want %q; chain %+v", g.Text, w.Text, ents)
+			}
+			if w.Line > 0 && !derefLine(cd.NoPosLines, w.Line) && g.Line != w.Line+cd.LineOffset {
+				return fail("newest panic (%q): Position().Line=%d, want %d; chain %+v", g.Text, g.Line, w.Line+cd.LineOffset, ents)
+			}
+			res.Sigs = append(res.Sigs, core.SigJoin(cd.Kind, "panic", "approx", kindOf(w.Text)))
+			if !equalStrings(log.Events, exp.Events) {
+				return fail("event log differs from the reference")
+			}
+			return res
+		}
 		if len(ents) != len(exp.Chain) {
 			return fail("chain has %d entries %+v, want %d", len(ents), ents, len(exp.Chain))
 		}
@@ -412,7 +429,7 @@ func (prop) Work(c core.Case) core.Result {
 			if g.Text != w.Text {
 				return fail("chain entry %d (oldest first): message %q, want %q; chain %+v", i, g.Text, w.Text, ents)
 			}
-			if w.Collapsed && sharedValue(w.Text) {
+			if w.RecUnknown || w.Collapsed && sharedValue(w.Text) {
 				// recovered flag not known from the reference
 			} else if g.Recovered != w.Recovered {
 				return fail("chain entry %d (%q): Recovered()=%v, want %v; chain %+v", i, g.Text, g.Recovered, w.Recovered, ents)
@@ -456,7 +473,7 @@ func (prop) Work(c core.Case) core.Result {
 			}
 			hdr.WriteString(w.Text)
 			rec := w.Recovered
-			if w.Collapsed && sharedValue(w.Text) {
+			if w.RecUnknown || w.Collapsed && sharedValue(w.Text) {
 				rec = ents[i].Recovered
 			}
 			if rec {
@@ -486,6 +503,15 @@ func (prop) Work(c core.Case) core.Result {
 		}
 	}
 	return res
+}
+
+func derefLine(lines []int, l int) bool {
+	for _, x := range lines {
+		if x == l {
+			return true
+		}
+	}
+	return false
 }
 
 // sharedValue reports whether text is the message of a run-time error whose value is
